@@ -13,7 +13,7 @@ TOKS = ['uuid', 'decimal', 'path', 'date', 'datetime', 'time', 'timedelta']
 HASHABLE_LEAVES = [l for l in LEAVES if l not in ('bytearray', 'any')]
 CONTEXTS = ['list', 'set', 'frozenset', 'deque', 'tuple2', 'vartuple', 'dictval', 'dictkey', 'defaultdict', 'ordered',
             'opt', 'union', 'nt', 'td', 'tdopt', 'data', 'tagunion', 'autotagunion',
-            'listopt', 'dictvalopt', 'ddkey', 'odkey']
+            'listopt', 'dictvalopt', 'ddkey', 'odkey', 'nonefirst', 'subdata']
 RESERVED = {'o', 'cls', 'field', 'fields', 'i', 'e', 'v1', 'tp', 'result', 'config', 'hooks', 'exclude', 'self',
             'dict_factory', 'asdict', 'paths', 'k', 'v', 'skip_defaults', 'json_key', 'py_field', 'init_kwargs',
             'catch_all', 'field_to_parser', 'json_to_field', 'py_case', 'count', 'index', 'copy', 'field'}
@@ -85,13 +85,43 @@ class Gen:
                 return n
         return 'fallback_name%d' % self.fresh()
 
+    @staticmethod
+    def _canon(n):
+        import re
+        return bool(re.match(r'^[a-z]{2,}[0-9]*(_[a-z]{2,}[0-9]*)*$', n))
+
     def names(self, k, allow_wild=True):
-        out, keys = [], set()
+        """k distinct field names.  Canonical names may collide after removing underscores / lower-casing their camel form
+        (username + user_name): the library keeps them apart, and with opts['name_families'] such near-collision families are
+        generated on purpose (joined words, prefixes).  Non-canonical names stay apart modulo underscores and case, because there the
+        dumped spellings themselves can coincide."""
+        out = []
+        fam = self.r.random() < self.opts.get('name_families', 0)
         while len(out) < k:
             n = self.name(allow_wild)
-            key = n.replace('_', '').lower()
-            if key not in keys:
-                keys.add(key); out.append(n)
+            if fam and out and self._canon(out[0]):
+                base = self.r.choice([x for x in out if self._canon(x)])
+                ws = base.split('_')
+                c = self.r.random()
+                if len(ws) >= 2 and c < 0.5:
+                    j = self.r.randrange(len(ws) - 1)
+                    cand = '_'.join(ws[:j] + [ws[j] + ws[j + 1]] + ws[j + 2:])        # user_name -> username
+                elif len(ws) >= 2 and c < 0.75:
+                    cand = '_'.join(ws[:-1])                                           # user_name -> user
+                elif len(ws[-1]) >= 4 and ws[-1].isalpha():
+                    h = len(ws[-1]) // 2
+                    cand = '_'.join(ws[:-1] + [ws[-1][:h], ws[-1][h:]])                # filename -> file_name
+                else:
+                    cand = base + '_' + self.word()                                    # user -> user_name
+                if self._canon(cand) and cand not in RESERVED and not keyword.iskeyword(cand):
+                    n = cand
+            if n in out:
+                continue
+            if not self._canon(n) or not all(self._canon(x) for x in out):
+                key = n.replace('_', '').lower()
+                if any(key == x.replace('_', '').lower() for x in out if not (self._canon(x) and self._canon(n))):
+                    continue
+            out.append(n)
         return out
 
     # ---- leaf types -------------------------------------------------------
@@ -104,16 +134,36 @@ class Gen:
             mix = l[5:]
             i = self.fresh()
             k = self.r.choice([1, 2, 3, 4])
-            if mix == 'int' or (mix == 'plain' and self.r.random() < 0.5):
+            names = ['M%d' % j for j in range(k)]
+            style = self.r.random()
+            flag = False
+            if style < 0.2:
+                names = self.r.sample(['NORTH', 'SOUTH', 'EAST', 'WEST', 'UP'], k)      # real-looking names (values may name OTHER members)
+            if mix == 'int' or (mix == 'plain' and self.r.random() < 0.45):
                 vals = self.r.sample(range(-3, 40), k)
-                members = [['M%d' % j, {'v': 'int', 'x': str(v)}] for j, v in enumerate(vals)]
+                if style > 0.85:
+                    vals = list(range(1, k + 1))[::-1] if self.r.random() < 0.5 else list(range(k))    # values = positions of other members
+                if mix == 'plain' and 0.5 < style < 0.62 and not self.opts.get('no_flag'):
+                    vals, flag = [2 ** j for j in range(k)], True                                   # enum.Flag
+                members = [[n, {'v': 'int', 'x': str(v)}] for n, v in zip(names, vals)]
             else:
                 vals = self.r.sample(['a', 'b', 'red', 'GREEN', 'x y', '', 'Z', '1'], k)
-                members = [['M%d' % j, {'v': 'str', 'x': v}] for j, v in enumerate(vals)]
+                if style < 0.2 and k >= 2:
+                    vals = names[1:] + names[:1]                                                    # value == the NAME of another member
+                elif style < 0.3:
+                    vals = [n.lower() for n in names]
+                members = [[n, {'v': 'str', 'x': v}] for n, v in zip(names, vals)]
+                if mix == 'plain' and 0.3 < style < 0.4 and k >= 2:
+                    members[-1][1] = {'v': 'int', 'x': str(self.r.randint(0, 9))}                 # values of mixed types
+            if 0.62 < style < 0.75 and k >= 2 and not flag:
+                members.append(['ALIAS', dict(members[0][1])])                                      # two names, one value
             nm = 'E%d' % i
             if self.r.random() < self.opts.get('same_named_enums', 0):
                 nm = self.r.choice(['Status', 'Color'])       # distinct classes sharing a __name__
-            return {'t': 'enum', 'id': i, 'name': nm, 'mix': mix, 'members': members}
+            out = {'t': 'enum', 'id': i, 'name': nm, 'mix': mix, 'members': members}
+            if flag:
+                out['flag'] = True
+            return out
         if l == 'literal':
             pool = [{'v': 'int', 'x': '1'}, {'v': 'int', 'x': '-7'}, {'v': 'str', 'x': 'a'}, {'v': 'str', 'x': 'B c'},
                     {'v': 'bool', 'x': True}, {'v': 'none'}, {'v': 'int', 'x': '0'}, {'v': 'str', 'x': ''}]
@@ -215,6 +265,19 @@ class Gen:
             i = self.fresh()
             a, b = self.names(2)
             return {'t': 'td', 'id': i, 'name': 'D%d' % i, 'req': [[a, inner]], 'opt': [[b, {'t': 'int'}]]}
+        if ctx == 'nonefirst':
+            # Optional[X] written None-first: Union[None, X]
+            if self.opts.get('no_nonefirst') or inner['t'] in ('opt', 'none', 'any', 'union'):
+                return None
+            return {'t': 'union', 'es': [{'t': 'none'}, inner]}
+        if ctx == 'subdata':
+            # nested dataclass Child(Base): the leaf is a field of the BASE class, Child adds one field
+            ib, ic = self.fresh(), self.fresh()
+            a, b = self.names(2)
+            fa = {'name': a, 'ty': inner, 'alias': None, 'default': None}
+            base = {'t': 'data', 'id': ib, 'name': 'K%d' % ib, 'tag': None, 'fields': [fa]}
+            return {'t': 'data', 'id': ic, 'name': 'K%d' % ic, 'tag': None, 'base': base,
+                    'fields': [dict(fa, inherited=True), {'name': b, 'ty': {'t': 'int'}, 'alias': None, 'default': {'v': 'int', 'x': '3'}}]}
         if ctx in ('listopt', 'dictvalopt'):
             # element / value type Optional[inner]: None and real values side by side in one container
             o = inner if inner['t'] in ('opt', 'none', 'any', 'union') else {'t': 'opt', 'e': inner}
@@ -264,6 +327,21 @@ class Gen:
                                {'name': b, 'ty': {'t': 'int'}, 'alias': None, 'default': {'v': 'int', 'x': '3'}}]}
         raise ValueError(ctx)
 
+    def respell(self, ty):
+        """equal-but-differently-written annotations: typing.List[int] / list[int], Optional[X] / Union[X, None] / X | None"""
+        if not isinstance(ty, dict):
+            return
+        if self.opts.get('spellings') and self.r.random() < self.opts['spellings']:
+            if ty.get('t') in ('seq', 'dict', 'tuple', 'vartuple'):
+                ty['spell'] = self.r.choice(['typing', 'builtin'])
+            elif ty.get('t') in ('opt', 'union'):
+                ty['spell'] = self.r.choice(['typing', 'pep604', 'union'])
+        for k in ('e', 'kt', 'vt'):
+            if k in ty: self.respell(ty[k])
+        for e in ty.get('es', []): self.respell(e)
+        for f in ty.get('fields', []): self.respell(f['ty'] if isinstance(f, dict) else f[1])
+        for _, ft in ty.get('req', []) + ty.get('opt', []): self.respell(ft)
+
     def root(self, field_types, tag=None, names=None, aliases=None, defaults=None, bases=None):
         i = self.fresh()
         names = names or self.names(len(field_types))
@@ -272,7 +350,9 @@ class Gen:
             fields.append({'name': n, 'ty': ty, 'alias': (aliases or {}).get(j), 'default': (defaults or {}).get(j)})
         # fields without default must precede fields with default
         fields.sort(key=lambda f: f['default'] is not None)
-        return {'t': 'data', 'id': i, 'name': 'K%d' % i, 'tag': tag, 'fields': fields, 'bases': bases or []}
+        out = {'t': 'data', 'id': i, 'name': 'K%d' % i, 'tag': tag, 'fields': fields, 'bases': bases or []}
+        self.respell(out)
+        return out
 
     # ---- random types ----------------------------------------------------------
     def rand_type(self, depth, allow=None):
